@@ -583,12 +583,25 @@ class CallMixin:
             return self.call_external(ex[1], args, kwargs, st, node)
         if kind == "extmethod":
             fs = self.reg.funs[ex[1]]
+            if args and args[0].const is not None and isinstance(args[0].const.v, str):
+                # an assumed contract per literal first argument (`env.get("relative-images", None)`) takes precedence
+                fs = self.reg.funs.get(f"{ex[1]}[{args[0].const.v}]", fs)
             return self.call_contract(fs, [ex[2]] + args, kwargs, st, node, params=fs.types.get("__params__"))
         if kind == "attr":
             # attribute of an external object, e.g. re.escape -> ("attr", external re, "escape")
             base = ex[1]
             if isinstance(base.extra, tuple) and base.extra[0] == "external":
                 return self.call_external(f"{base.extra[1]}.{ex[2]}", args, kwargs, st, node)
+            if base.const is not None and isinstance(base.const.v, dict) and ex[2] == "get" and 1 <= len(args) <= 2 and not kwargs \
+                    and all(isinstance(k, str) and isinstance(v, str) for k, v in base.const.v.items()):
+                # {"a": "x", ...}.get(key[, default]) on a literal table of strings: a chain of conditionals over the keys
+                key = sym.coerce(self.reify(args[0]), sym.TStr())
+                acc = self.reify(args[1]) if len(args) > 1 and isinstance(args[1].t, TConst) else (args[1] if len(args) > 1 else mk_const(None))
+                for k, v in reversed(list(base.const.v.items())):
+                    acc = self.merge_ite(key.z == self.reify(mk_const(k)).z, self.reify(mk_const(v)), acc)
+                    if acc is None:
+                        raise EngineError("dict-literal .get result types")
+                return [(st, acc)]
             if isinstance(base.extra, tuple) and base.extra[0] == "opaque-const":
                 # method of an unmodelled module constant (e.g. a compiled regex): assumed contract by name
                 return self.call_external(f"{base.extra[1]}.{base.extra[2]}.{ex[2]}", args, kwargs, st, node)
